@@ -239,7 +239,7 @@ func MustBuild(v *refval.V) datamodel.Node {
 }
 
 // ScaleCases: the number of cases of Scale.
-const ScaleCases = 8
+const ScaleCases = 9
 
 // Scale: concrete values large in one dimension (n entries), for the one-path "scale" harnesses.
 func Scale(which, n int) *refval.V {
@@ -293,6 +293,13 @@ func Scale(which, n int) *refval.V {
 				v.L = append(v.L, refval.MkInt(int64(i)*1000003-500))
 			}
 		}
+	}
+	if which == 8 { // one bytes value of a mebibyte and one byte (beyond every internal buffer and chunk size)
+		b := make([]byte, 1<<20+1)
+		for i := range b {
+			b[i] = byte(i * 7)
+		}
+		v = refval.MkBytes(b)
 	}
 	return v
 }
